@@ -116,6 +116,8 @@ def check(ctx):
     body = u(ne.node)
     run.check(len(find_stmt("if _f['type'] in ['array', 'object']:\n    ...\n    _a.setdefault(_f['name'], []).extend(OBJECT_FIXERS[_d])", ne.node)) == 1,
               'R12', ne.where, ne.qualname, 'fixers only for array / object fields', 'other field types are rewritten for the engine')
+    from rules import independence
+    independence.r28_functions(ctx, [(SQL + ':SQLDumper.normalize_for_engine', {})])
     ns = sd.methods['normalize_schema_for_engine']
     run.check(has_stmt('_s = copy.deepcopy(_s)', ns.node), 'R12', ns.where, ns.qualname, 'engine schema is a deep copy',
               'the emitted schema itself is rewritten for the engine (downstream sees string instead of array/object)')
